@@ -29,6 +29,14 @@ func c16Spec(challenge, password string, salt []byte) string {
 	return fmt.Sprintf("%08s", v.String())
 }
 
+// c16Token: the 30-bit login token of the published recipe, before it is cut to eight digits
+func c16Token(challenge, password string, salt []byte) int64 {
+	sum := md5.Sum(append([]byte(challenge+password), salt...))
+	v := new(big.Int).SetBytes([]byte{sum[3], sum[2], sum[1], sum[0]})
+	v.Mod(v, new(big.Int).Lsh(big.NewInt(1), 30))
+	return v.Int64()
+}
+
 type c16Session struct {
 	Mycall, Target, Locator string
 	UAName, UAVersion       string
@@ -223,6 +231,9 @@ func runC16(ctx *Ctx) error {
 			HasCB: r.Intn(8) != 0, Gzip: r.Intn(5) == 0}
 		if r.Intn(3) == 0 {
 			c.Mycall = strings.ToLower(c.Mycall)
+		}
+		if i%9 == 4 {
+			c.Mycall += "@winlink.org" // the station's own address given in full: the same address
 		}
 		for k := r.Intn(4); k > 0; k-- {
 			switch r.Intn(3) {
